@@ -71,6 +71,8 @@ FROM host_settings;`
 			&config.DDNS.Provider, &config.DDNS.IPv4, &config.DDNS.IPv6, &dyndnsBuf, &config.SectorCacheSize)
 		if errors.Is(err, sql.ErrNoRows) {
 			return settings.ErrNoSettings
+		} else if err != nil {
+			return fmt.Errorf("failed to query settings: %w", err)
 		}
 		if dyndnsBuf != nil {
 			err = json.Unmarshal(dyndnsBuf, &config.DDNS.Options)
